@@ -38,6 +38,7 @@ PROPS["C06"] = dict(
         technique="Lean 4 proof over hand-written code-shaped model + Go/Lean differential correspondence against the literal spec function",
         design_ref="DESIGN.md 5/C06", engine="lean"),
     assumptions=[
+        "concurrent use: the theorems are about one call; that a call's result does not depend on other calls running at the same time is checked by correspondence only (op `par`: 8-16 goroutines, 300 repetitions each, GOMAXPROCS >= 4; a shared unsynchronised hasher was detected in 40/40 runs on 16 CPUs, it needs real parallelism to show)",
         "per-index theorems: index < listSize <= 2^63 (documented domain; Go slice lengths are below 2^63; above it the uint64 sum wraps — a counter-example is proved in C06.lean)",
         "equality with compute_shuffled_index: listSize <= 2^40 = VALIDATOR_REGISTRY_LIMIT (the spec's uint32(position // 256) rejects larger positions), rounds <= 255 (uint8), hash output is 32 bytes",
     ],
